@@ -40,7 +40,8 @@ ASSUMPTIONS = ['the Manifest chain is intact and duplicates agree in this worklo
 
 CLASSES = ['content', 'size', 'delete', 'retype', 'stray', 'stray', 'stray-lookalike',
            'stray-special', 'stray-manifest-name', 'm-digest', 'm-size', 'm-drop',
-           'm-ghost', 'm-ghost', 'm-disjoint-wrong', 'm-compatible-dup']
+           'm-ghost', 'm-ghost', 'm-disjoint-wrong', 'm-compatible-dup',
+           'm-manifest-dup-wrong', 'm-manifest-dup-wrong', 'm-entry-for-dir']
 N = {'quick': 2500, 'thorough': 100000}
 PER_UNIT = 25
 POLICIES = ['false', 'true', 'none', 'mixed']
